@@ -250,6 +250,7 @@ func init() {
 			{Name: "exhaustive", QShards: 4, TShards: 10, Run: c12Exhaustive},
 			{Name: "random", TShards: 4, Run: c12Random},
 			{Name: "bytes", Run: c12Bytes},
+			{Name: "afteruse", Run: afterUse(c12Bytes)},
 			{Name: "longcontext", QShards: 8, TShards: 12, Run: func(c *Ctx) {
 				longContextPanics(c, 0, "ACGTNacgtn", []byte{'U', 'R', '@', 0, 0xff, 0x80, 'B', 'M'}, map[string]func([]byte){
 					"ReverseComplement":                           func(s []byte) { sequtil.ReverseComplement(nil, s) },
@@ -645,5 +646,50 @@ func c12Gigantic(c *Ctx) {
 			k.Count("canonical_checked", int64(want/1024))
 			k.Nontrivial([]byte(fmt.Sprint("gigantic", n, kk)))
 		})
+	}
+}
+
+// afterUse runs a unit's checks in a process that has already USED every
+// exported function of the package — on small and on large inputs, on RNA-like
+// and lower-case text, with calls that panic in between. Package-level tables
+// that one function fills, extends or aliases lazily are shared by the others:
+// what a function accepts must not depend on which functions ran before it.
+func afterUse(run func(c *Ctx)) func(c *Ctx) {
+	return func(c *Ctx) {
+		useAllOfSequtil()
+		run(c)
+	}
+}
+
+func useAllOfSequtil() {
+	big := bytes.Repeat([]byte("ACGTTGCAaacgtNnAGT"), 1<<16)
+	dna := bytes.Repeat([]byte("ACGTTGCAaacgtAGT"), 3<<15)
+	for _, s := range [][]byte{[]byte("ACGTNacgtn"), big} {
+		sequtil.ReverseComplement(nil, s)
+		sequtil.ReverseComplementString(string(s[:10]))
+		for range sequtil.CanonicalSubsequences(s[:min(len(s), 5000)], 3) {
+		}
+	}
+	for _, s := range [][]byte{[]byte("ACGTacgtAC"), dna} {
+		sequtil.DNAFrom2Bit(nil, sequtil.DNATo2Bit(nil, s))
+		sequtil.Translate(nil, s[:len(s)/3*3])
+		sequtil.TranslateReadingFrames(s)
+	}
+	for b := 0; b < 256; b++ {
+		sequtil.Ntoi(byte(b))
+		catch(func() { sequtil.AminoName(byte(b)) })
+		s := []byte{byte(b), 'A', byte(b), 'c', byte(b), byte(b)}
+		catch(func() { sequtil.Translate(nil, s) })
+		catch(func() { sequtil.TranslateReadingFrames(s) })
+		catch(func() { sequtil.ReverseComplement(nil, s) })
+		catch(func() { sequtil.ReverseComplementString(string(s)) })
+		catch(func() { sequtil.DNATo2Bit(nil, s) })
+		catch(func() {
+			for range sequtil.CanonicalSubsequences(s, 2) {
+			}
+		})
+	}
+	for i := 0; i < 4; i++ {
+		sequtil.Iton(i)
 	}
 }
